@@ -425,8 +425,11 @@ def backoff_script(cfg, hist, src):
         else: c[name + "_us"] = v
     modes, total_us, expect = [], 0, []
     for h in hist:
+        long_ = h.get("lifeUs", 0) > cfg["stableUs"] and h.get("lifeUs", 0) > 1000
         if h["a"] == "Fail": modes.append("refuse")
-        else: modes.append("life:%d" % (LONG_LIFE_REAL_US if h["lifeUs"] > cfg["stableUs"] and h["lifeUs"] > 1000 else 0))
+        elif h["a"] == "Reject": modes.append("reject:%d" % (LONG_LIFE_REAL_US if long_ else 0))
+        elif h["a"] == "Eof": modes.append("eof:%d" % (LONG_LIFE_REAL_US if long_ else 0))
+        else: modes.append("life:%d" % (LONG_LIFE_REAL_US if long_ else 0))
         if h.get("panic") or h.get("cap", 0) > 100000000:
             break
         total_us += h.get("cap", 0)
@@ -437,6 +440,9 @@ def backoff_script(cfg, hist, src):
 
 
 BACKOFF_REGRESSIONS = [
+    backoff_script({"baseUs": 1000000, "maxUs": 64000000, "stableUs": 2000000, "jitter": "none"},
+                   [{"a": "Ok", "lifeUs": 1000, "cap": 1000000}, {"a": "Reject", "lifeUs": 2001000, "cap": 2000000}, {"a": "Eof", "lifeUs": 2001000, "cap": 4000000},
+                    {"a": "Reject", "lifeUs": 1000, "cap": 8000000}, {"a": "Fail", "cap": 16000000}], "S3:backoff-rejected-handshakes-after-a-success"),
     backoff_script({"baseUs": 10000000, "maxUs": 2000000, "stableUs": 2000000, "jitter": "none"},
                    [{"a": "Fail", "cap": 2000000}, {"a": "Fail", "cap": 4000000}, {"a": "Fail", "cap": 8000000}, {"a": "Ok", "lifeUs": 1000, "cap": 10000000},
                     {"a": "Ok", "lifeUs": 2001000, "cap": 2000000}, {"a": "Fail", "cap": 4000000}], "S3:f14a-base-above-max"),
@@ -460,8 +466,11 @@ def random_backoff_scripts(seed, n):
         lo, hi = min(base, mx), max(max(base, mx), 1000000)
         hist, cap = [], lo
         for k in range(rng.randint(2, 9)):
-            if rng.random() < 0.7:
+            r = rng.random()
+            if r < 0.45:
                 hist.append({"a": "Fail", "cap": cap})
+            elif r < 0.7:
+                hist.append({"a": rng.choice(["Reject", "Eof"]), "lifeUs": rng.choice([1000, 2001000]), "cap": cap})
             else:
                 life = rng.choice([1000, 2001000])
                 if life > stab: cap = lo
@@ -495,19 +504,19 @@ def check_backoff(pid, tier, seed):
     known = load_known()
     big = tier == "thorough"
     mc = {"instances": [], "distinct": 0, "generated": 0}
-    main = run_tlc(os.path.join(workdir, "bo-main"), SPEC, "Backoff", backoff_cfg([], False, 6 if big else 5), workers=TLC_WORKERS, timeout=3000, java_opts="-Xss1g -Xmx12g")
+    main = run_tlc(os.path.join(workdir, "bo-main"), SPEC, "Backoff", backoff_cfg([], False, 5 if big else 4), workers=TLC_WORKERS, timeout=3000, java_opts="-Xss1g -Xmx12g")
     if not main["ok"]:
         sys.stdout.write(main["text"][-3000:])
         raise ToolError("Backoff.tla (repaired behaviour) violates C19: the specification and the code must be re-examined")
-    mc["instances"].append({"name": "repaired behaviour: every configuration x every history of %d attempts" % (6 if big else 5), "distinct": main.get("distinct", 0), "generated": main.get("generated", 0), "wall_s": main["wall_s"], "ok": True})
+    mc["instances"].append({"name": "repaired behaviour: every configuration x every history of %d attempts" % (5 if big else 4), "distinct": main.get("distinct", 0), "generated": main.get("generated", 0), "wall_s": main["wall_s"], "ok": True})
     mc["distinct"] += main.get("distinct", 0); mc["generated"] += main.get("generated", 0)
-    for defect in ("initial-period-before-normalize", "zero-range-jitter", "unchecked-doubling"):
+    for defect in ("initial-period-before-normalize", "zero-range-jitter", "unchecked-doubling", "stale-success-time"):
         r = run_tlc(os.path.join(workdir, "bo-" + defect[:8]), SPEC, "Backoff", backoff_cfg([defect], False, 3), workers=4, timeout=600)
         found = (not r["ok"]) and ("MonitorQuiet" in r["text"] or "NeverDies" in r["text"])
         mc["instances"].append({"name": "defect switched on: " + defect, "found": found, "distinct": r.get("distinct", 0), "wall_s": r["wall_s"]})
         if not found:
             raise ToolError("Backoff.tla no longer exposes the recorded defect '%s'" % defect)
-    exp = run_tlc(os.path.join(workdir, "bo-export"), SPEC, "Backoff", backoff_cfg([], True, 5 if big else 4), workers=TLC_WORKERS, timeout=3000, java_opts="-Xss1g -Xmx12g")
+    exp = run_tlc(os.path.join(workdir, "bo-export"), SPEC, "Backoff", backoff_cfg([], True, 4 if big else 3), workers=TLC_WORKERS, timeout=3000, java_opts="-Xss1g -Xmx12g")
     if not exp["ok"]:
         sys.stdout.write(exp["text"][-3000:])
         raise ToolError("Backoff.tla export instance failed")
